@@ -235,6 +235,47 @@ def _h_hist(calls, events, clock):
     cover("history")
 
 
+def h_fault(first, accept):
+    """a close frame whose write is cut by a transport fault (short write, then timeout): whatever the application does next,
+    no second close frame may be started on this connection"""
+    quiet_logging()
+    Proto, Payload, Closed, Timed = _excs()
+    clock = Clock()
+    C, real_time = _install_clock(clock)
+    try:
+        inc = [server_frame(1, 8, b"\x03\xe8"), ("silence",)] if first == "reply" else [("silence",)]
+        sock = TSock(clock, inc)
+        sock.timeout = 5
+        sock.accept = [accept, "timeout"] if accept else ["timeout"]
+        ws = new_ws(sock, get_mask_key=KeySource([bytes(4)] * 8))
+        try:
+            if first == "reply":
+                ws.recv_data(True)
+            elif first == "send_close":
+                ws.send_close(1000, b"bye")
+            else:
+                ws.close(1000, b"bye", timeout=1)
+        except (Timed, Closed):
+            pass
+        except (sx.Control, sx.ConcreteFailure, sx.ReplayMismatch):
+            raise
+        except Exception as e:
+            sx.require(False, "%s raised %s on a write fault" % (first, type(e).__name__))
+            return
+        sock.accept = []
+        try:
+            ws.close(1001, b"x", timeout=1)
+        except (Timed, Closed):
+            pass
+        starts = [b for b in getattr(sock, "frame_starts", []) if b is not None and (b & 0x0F) == 8]
+        sx.require(len(starts) <= 1, "no second close frame is started after the first one was cut by a transport fault", first=first,
+                   accept=accept, got=len(starts))
+        sx.require(sock.closed and ws.sock is None, "close() releases the transport after a write fault", first=first)
+        cover("fault")
+    finally:
+        C.time = real_time
+
+
 def status_unsigned(status):
     """status is known to be within 0..65535 on this path: drop the sign bit of the symbolic value"""
     if isinstance(status, core.SymInt):
@@ -326,6 +367,9 @@ def obligations(tier):
                    budget_s=3000 if thorough else 1200,
                    kernel=["WebSocket.close", "send_close", "shutdown", "send", "ping", "recv_data_frame (close branch)", "_send", "_recv",
                            "_socket.send", "_socket.recv"]),
+        Obligation("H-fault", h_fault, [dict(first=f, accept=a) for f in ("send_close", "reply", "close") for a in (0, 1, 3, 7)],
+                   bounds="the close frame of send_close() / of the automatic reply / of close() is cut after 0, 1, 3 or 7 bytes by a write timeout, then close() is called",
+                   must_cover=["fault"], kernel=["WebSocket.send_close", "close", "recv_data_frame (close branch)", "send_frame", "_socket.send"]),
         Obligation("H-timeout", h_timeout, [dict(server=s) for s in servers],
                    bounds="close(timeout=t), t a solver real in [0,10] (0 = do not wait); servers: silent / close after d / data then close after d,e / a whole frame every "
                           "delta >= t/3 / end of stream after d; d,e,delta solver reals <= 30",
